@@ -194,7 +194,7 @@ SPECIAL = [
     'C', 'CC', 'CCO', 'CC(C)C', 'CC(C)(C)C', 'C1CC1', 'C1CC1C', 'C12C3C4C1C5C2C3C45', 'C1CC2CCC1CC2', 'C1CCC2(CC1)CCCC2',
     'C1CC2C3CCC(C3)C2C1', 'c1ccc2c(c1)ccc1ccccc12', 'C1=CC2=CC=CC2=C1',
     # more than nine ring closures open at the same time (%nn numbers), spiro chains (numbers released and reused)
-    'C1C2C3C4C5C6C7C8C9C%10C%11C%12C%12C%11C%10C9C8C7C6C5C4C3C2C1', 'C1CC11CC11CC11CC1', 'C1CC12CC23CC3CC2C1',
+    'C1C2C3C4C5C6C7C8C9C%10C%11C%12OC%12C%11C%10C9C8C7C6C5C4C3C2C1', 'C1CC11CC11CC11CC1', 'C1CC12CCC21CC1',
     'C1CC1C1CC1C1CC1', 'C12(CC1)CC2',
     # brackets: isotopes, charges, radicals, H counts, elemental / special atoms
     '[13CH4]', '[2H]O[2H]', '[H][H]', '[H+]', '[NH4+]', '[O-]C(=O)c1ccccc1', 'C[N+](C)(C)C', '[Fe+2]', '[Fe+3].[Cl-].[Cl-].[Cl-]',
@@ -272,7 +272,7 @@ def pool(ck):
     rng = random.Random(f'{ck.seed}:c02pool')
     quick = ck.tier == 'quick'
     mols = special_molecules() + api_molecules()
-    for salt, src, k in (('lipo', corpus.lipo(), 100 if quick else 1200), ('stereo', corpus.stereo_smiles(), 60 if quick else 600)):
+    for salt, src, k in (('lipo', corpus.lipo(), 70 if quick else 1200), ('stereo', corpus.stereo_smiles(), 45 if quick else 600)):
         for smi in corpus.sample(src, k, ck.seed, 'c02' + salt):
             try:
                 m = smiles(smi)
@@ -346,7 +346,7 @@ def corr_writer(ck, mols):
         md = [f'Definition m{i} : mol := {mt}.', f'Definition t{i} : stabs := {tt}.']
         wdone = {}
         # every molecule: canonical + 3 rotating specs; every 6th molecule and the special ones: all specs
-        if i % 5 == 0:
+        if i % 7 == 0:
             specs = list(specs_all)
         else:
             specs = [''] + rng.sample(specs_all[1:], 3 if name in SPECIAL_SET else 2)
@@ -477,14 +477,14 @@ def corr_reader(ck, texts):
         if s not in seen and all(32 <= ord(c) < 127 for c in s) and not any(c in s for c in ';,!'):
             seen.add(s)
             tk_inputs.append(s)
-    for t in (texts if not quick else corpus.sample(sorted(set(texts)), 900, ck.seed, 'c02tkw')):
+    for t in (texts if not quick else corpus.sample(sorted(set(texts)), 500, ck.seed, 'c02tkw')):
         add(t.split(' ')[0])
     n_written = len(tk_inputs)
     for L in range(0, 3 if quick else 4):
         for tup_ in itertools.product(TK_ALPHABET, repeat=L):
             add(''.join(tup_))
     base = [t.split(' ')[0] for t in texts[:400]] or ['CCO']
-    for _ in range(600 if quick else 6000):
+    for _ in range(400 if quick else 6000):
         s = rng.choice(base)
         if not s:
             continue
@@ -529,10 +529,10 @@ def corr_reader(ck, texts):
             for st in ('', '@', '@@', '@@@'):
                 for h in ('', 'H', 'H0', 'H1', 'H4', 'H5', 'H12', 'HH'):
                     for chg in ('', '+', '-', '+2', '-4', '+5', '++', '+-', '--', '+++', '-1', '+1+'):
-                        if rng.random() < (0.004 if quick else 0.2):
+                        if rng.random() < (0.003 if quick else 0.2):
                             for mp in ('', ':1', ':0', ':9999', ':10000', ':', ':a', ':12x'):
                                 add2(iso + sym + st + h + chg + mp)
-    for _ in range(400 if quick else 4000):
+    for _ in range(250 if quick else 4000):
         add2(''.join(rng.choice('019CclNnSsei@H+-:234 ') for _ in range(rng.randint(0, 6))))
     ap_cases = [f'apcase {cs(s)} ({ap_expected(s)})' for s in ap_inputs]
     for s in ap_inputs:
@@ -814,7 +814,7 @@ def iso_exists(a, b, limit=20000):
         return False
     key = lambda mol, n: (atom_sig(mol._atoms[n]), len(mol._bonds[n]), mol._atoms[n].stereo is None,
                           tuple(sorted(int(x) for x in mol._bonds[n].values())))
-    if sorted(key(a, n) for n in a._atoms) != sorted(key(b, n) for n in b._atoms):
+    if sorted(repr(key(a, n)) for n in a._atoms) != sorted(repr(key(b, n)) for n in b._atoms):
         return False
     # atoms of a in BFS order (every atom after the first of its component has a mapped neighbour)
     todo, seen = [], set()
@@ -976,8 +976,9 @@ def search_small_graphs(ck, max_atoms, decor, full_upto):
 def search(ck, mols):
     quick = ck.tier == 'quick'
     rng = random.Random(f'{ck.seed}:c02search')
-    sub = mols if not quick else ([x for x in mols if x[0] in SPECIAL_SET] + rng.sample([x for x in mols if x[0] not in SPECIAL_SET], 90))
-    found = search_roundtrip(ck, sub, n_random=2 if quick else 5, full=not quick)
+    rest = [x for x in mols if x[0] not in SPECIAL_SET]
+    sub = mols if not quick else ([x for x in mols if x[0] in SPECIAL_SET] + rng.sample(rest, min(110, len(rest))))
+    found = search_roundtrip(ck, sub, n_random=3 if quick else 5, full=not quick)
     stereo_mols = [x for x in mols if sum(n_labels(x[1])) > 0 and '#' not in x[0]]
     found += search_stereoisomers(ck, stereo_mols if not quick else stereo_mols[:90], max_labels=5 if quick else 8)
     found += search_small_graphs(ck, 4 if quick else 5, DECOR[:5] if quick else DECOR, 3 if quick else 4)
